@@ -76,6 +76,10 @@ def run(prog: Program, rep: Report, tier: str):
     rep.check(ok, "C17.idxs", site, "_get_contrastive_idxs:replace=False", "jr.choice(..., replace=False)",
               "jr.choice is not called with the literal replace=False (jax's default samples with replacement)")
     rule_stable(prog, rep, "C17.stable", [L + n for n in REFS])
+    # a loss is a static argument of eqx.filter_jit (its own __call__, train_utils.step): its configuration
+    # (stick_the_landing, n_contrastive, ...) selects the compiled estimator only if equality distinguishes it
+    from .staticeq import rule_static_eq
+    rule_static_eq(prog, rep, "C17.static-eq", only=lambda c: c.module.name == "flowjax.train.losses", minimum=4)
     if tier == "thorough":
         from ..audit import audit_generic
         audit_generic(prog, rep, "C17")
